@@ -38,7 +38,7 @@ P = {
          "Decides: each of the 8 mutators of the exact variant performs the inner operation first and the corresponding statistics operation only on its success edge; no state-changing *DDSketch method is reachable without the wrapper; SummaryStatistics Copy/Clear/Reweight/Rescale/MergeWith/Add field tables; quantile clamping table; statistics blocks encode/decode symmetry.",
          "Not decided: ulp bound of the compensated sum. Trusted: go/ssa.", "DESIGN.md §4 C10"),
  "C11": ("sign-domain obligation on the rank + path table (static analysis)",
-         "Decides the clause 'never a value from an empty side': on every path on which GetValueAtQuantile answers from the negative store, non-emptiness of that store is established (rank >= 0 proven in the sign domain together with rank < negative total, or an explicit emptiness test).",
+         "Decides the clause 'never a value from an empty side': on every path on which GetValueAtQuantile answers from the negative store, non-emptiness of that store is established (rank >= 0 proven in the sign domain together with rank < negative total, or an explicit emptiness test). Also re-evaluates for weighted histories: weight forwarded unchanged to the right side, rank = q*(W-1) split by the sides' totals, every store's KeyAtRank selection rule, and Reweight scaling zero weight and both stores (obligations shared with C01-D1..D3, C16-D1).",
          "Not decided: rank within one unit of weight; positive-side emptiness (relational). Sign axioms listed in evidence.", "DESIGN.md §4 C11"),
  "C12": ("SSA path tables over emptiness atoms + term normal forms (static analysis)",
          "Decides: GetMaxValue/GetMinValue decision tables over the 8 emptiness valuations, GetCount/IsEmpty/GetZeroCount terms, ForEach/GetSum iteration contract (signs, zero bucket, early stop), batch = singles.",
@@ -53,10 +53,10 @@ P = {
          "Decides: Clear of every store / statistics / sketch resets every field any non-constructor method writes to the constructor's value, with reasoned exceptions each carrying a checked side condition; truncated storage is only regrown by append-of-make (zero-filled), never by a growing reslice.",
          "Not decided: equality of answers for all later histories. Trusted: go/ssa.", "DESIGN.md §4 C15"),
  "C16": ("SSA path tables + loop-range terms (static analysis)",
-         "Decides: sketch Reweight scales the zero weight and both stores with the same factor term; each store body scales its cached total and every element of its window/map/pages and re-adds buffered unit entries with weight w; statistics Reweight follows the inner one.",
+         "Decides: sketch Reweight scales the zero weight and both stores with the same factor term; each store body scales its cached total and every element of its window/map/pages and re-adds buffered unit entries with weight w; the exact variant's Reweight performs the inner Reweight first and the statistics Reweight on its success edge; SummaryStatistics.Reweight scales every accumulator (count, sum, compensation).",
          "Not decided: float equality of scaled values. Trusted: go/ssa.", "DESIGN.md §4 C16"),
  "C17": ("SSA path table + sign-domain obligation + alias-origin analysis (static analysis)",
-         "Decides: identity shortcut returns Copy(); otherwise both sides converted into the matching target store, result carries newMapping and the copied zero weight; source mod-set empty / result not aliased; the weight handed to the target store is provably >= 0 on every path (sign domain, axioms listed).",
+         "Decides: identity shortcut returns Copy(); otherwise both sides converted into the matching target store, result carries newMapping and the copied zero weight; source mod-set empty / result not aliased; the weight handed to the target store is provably >= 0 on every path (sign domain, axioms listed); the overlap enumeration terms (scaled source range, loop start/continuation, proportion); the exact variant returns a copy of the statistics rescaled once by the same factor and Rescale's field table.",
          "Not decided: conservation of total weight up to rounding, combined accuracy. Trusted: sign axioms in evidence.", "DESIGN.md §4 C17"),
  "C18": ("interval analysis of buffer accesses + term normal forms + sibling agreement (static analysis)",
          "Decides: every buffer access of the six primitive decoders is in range on every path, at most 9 bytes are inspected, short input -> io.EOF with no store to the cursor, encoders append 1..9 (8) bytes and nothing else; size functions are tied to the encoders; zig-zag, var-float and fixed little-endian float transforms are inverse pairs by shape with no value special-cased; group constants agree.",
